@@ -1193,3 +1193,28 @@ def r09_8(ctx):
     ctx.check(('N', 'N') in sts and ('S', 'S') in sts, R, key + '|protocol states (positive control)', b.loc(), 'states between ops: %s' % sorted(sts), 'the typestate interpreter does not reach the op loop with the expected states (%s): fail closed' % sorted(sts))
     ctx.check(('S', 'N') not in sts, R, key + '|cursor implies start', b.loc(), 'no op leaves a current point without a subpath start',
               'an op sequence reaches the op loop with a current point but no subpath start (`%s` is Some while `%s` is None), e.g. a path that begins with line_to: Close then has nowhere to return to, the closing segment is not dashed and the cursor is lost, although flatten, the stroker and fill all treat the first line_to as the subpath start' % (b.local_name(cs[0]), b.local_name(cs[1])))
+
+
+def r04_9(ctx):
+    """subpath protocol of the stroker: the record of the subpath's first segment (start point and normal) exists only
+    while there is a current point (otherwise the caps and the closing join, which need both, are silently skipped)"""
+    import typestate
+    R = 'R04.9'
+    b = ctx.body(ST + 'stroke_to_path', R)
+    an = ctx.an(b)
+    key = 'stroke::stroke_to_path'
+    m = op_match(ctx, b, R)
+    if m is None:
+        return
+    import props.c16 as c16
+    curs = c16.cursor_locals(ctx, b, m)
+    # the first-segment record: the named Option local holding a (point, normal) tuple
+    recs = [i for i, l in enumerate(b.locals) if l.get('name') and l['ty'].startswith('std::option::Option<(') and 'Vector2D' in l['ty']]
+    if not ctx.check(len(curs) == 1 and len(recs) == 1, R, key + '|cursors', b.loc(), 'cursor and first-segment record found', 'cannot identify the cursor and the first-segment record of stroke_to_path (fail closed)'):
+        return
+    cur, rec = list(curs)[0], recs[0]
+    at = typestate.run(ctx, b, [cur, rec])
+    sts = at.get(m.bb, set())
+    ctx.check(('N', 'N') in sts and ('S', 'S') in sts and ('S', 'N') in sts, R, key + '|protocol states (positive control)', b.loc(), 'states between ops: %s' % sorted(sts), 'the typestate interpreter does not reach the op loop with the expected states (%s): fail closed' % sorted(sts))
+    ctx.check(('N', 'S') not in sts, R, key + '|first segment implies cursor', b.loc(), 'no op leaves a first-segment record without a current point',
+              'an op sequence leaves `%s` Some while `%s` is None: the end caps / closing join of that subpath are never emitted' % (b.local_name(rec), b.local_name(cur)))
